@@ -35,9 +35,8 @@ REAL = ["happysimulator.core.simulation.Simulation (fast loop and instrumented l
         "happysimulator.core.clock.Clock", "happysimulator.core.control.SimulationControl (mode=control)"]
 STUBS = ["ScriptEntity handlers interpreting the JSON program (harness)", "RefEngine reference interpreter (oracle)"]
 ASSUMPTIONS = [
-    "the initial events of a model are created either all after the Simulation object is constructed (the documented usage) "
-    "or all before it (Simulation.__init__ resets the process-global creation counter, so mixing the two is not judged); "
-    "creation order is the order in which the harness/handler body constructs Event objects",
+    "creation order is the order in which the harness/handler body constructs Event objects, whether before or after the "
+    "Simulation object is constructed (any split is generated)",
     "events later than end_time are outside the statement (the engine delivers the first one past end_time; not judged here)",
     "cancelled non-daemon events count as pending until lazily removed (weaker reading of auto-termination)",
 ]
@@ -52,8 +51,10 @@ def gen(rng, tier):
     modes = ["control", "plain"] + (["fast", "fast"] if prog["end"] is not None else [])
     prog["mode"] = rng.choice(modes)
     prog["perturb"] = rng.randrange(0, 50) if rng.random() < 0.3 else 0
-    # all initial events are built either after the Simulation object exists (usual) or all before it
-    prog["create_before_sim"] = rng.random() < 0.25
+    # the first n initial events are built before the Simulation object exists, the rest after it
+    r = rng.random()
+    n = len(prog["initial"])
+    prog["create_before_sim"] = 0 if r < 0.6 else (n if r < 0.75 else rng.randint(0, n))
     return prog
 
 
@@ -88,11 +89,13 @@ def run_engine(sc):
     # perturbation: unrelated earlier activity in the interpreter
     for _ in range(sc.get("perturb", 0)):
         _E(time=Instant(0), event_type="noise", target=pr.entities[0])
-    evs = pr.build_initial() if sc.get("create_before_sim") else None
+    cb = sc.get("create_before_sim", 0)
+    n_before = len(sc["initial"]) if cb is True else int(cb or 0)
+    pr.create_initial(0, n_before)          # built before the Simulation object exists
     sim = Simulation(entities=pr.entities, end_time=Instant(end) if end is not None else None)
     pr.sim = sim
-    if evs is None:
-        evs = pr.build_initial()
+    pr.create_initial(n_before, None)       # built afterwards (the usual way)
+    evs = pr.initial_in_schedule_order()
     if evs:
         if len(evs) % 2:
             sim.schedule(evs)
@@ -185,7 +188,7 @@ def run(sc):
         "probe.daemon_left_pending": int(sc.get("end") is None and any(p["daemon"] for p in ref.pending)),
         "probe.generator_resumed": int(has_gen),
         "probe.crashed_target_skipped": int(ref.processed > len(ref.log)),
-        "probe.events_created_before_simulation": int(bool(sc.get("create_before_sim")) and len(sc["initial"]) > 1),
+        "probe.events_created_before_simulation": int(0 < (len(sc["initial"]) if sc.get("create_before_sim") is True else int(sc.get("create_before_sim") or 0)) < len(sc["initial"])),
         "probe.cancelled_after_schedule": int(any(i.get("cancel") == "late" for i in sc["initial"])),
         f"mode.{sc.get('mode')}": 1,
         "deliveries_past_end_time_observed": sum(1 for x in pr.log if sc.get("end") is not None and x[2] > sc["end"]),
